@@ -93,61 +93,121 @@ def run(prog, check):
                  'the shared parser injects `%s` but the generated module never defines %r: NameError at the first step' % (eqs[0], name),
                  'every block without a user-defined time variable')
     # ---- R2 ----------------------------------------------------------------------------------------
-    ge = gen_cls.methods['GenerateEquations']
-    check.saw(ge)
+    from ..inline import flatten
+    from ..tableterm import TermEval, canon_index, show, rep_parts, alpha_eq
+    allvar, eqlist = 'AllVariables', 'EquationList'
+    ge_raw = gen_cls.methods['GenerateEquations']
+    check.saw(ge_raw)
+    ge = flatten(prog, ge_raw)
     list_names = set()
     for n in ast.walk(ge.node):
         if isinstance(n, ast.Assign) and isinstance(n.targets[0], ast.Attribute) and isinstance(n.value, ast.List) and not n.value.elts:
             list_names.add(n.targets[0].attr)
-    loops = [n for n in ge.node.body if isinstance(n, ast.For)]
-    allvar = 'AllVariables'
-    eqlist = 'EquationList'
-    order = []
-    aligned = True
-    for lp in loops:
-        src = unparse(lp.iter)
-        a = sum(1 for c in ast.walk(lp) if isinstance(c, ast.Call) and call_name(c) == 'append' and
-                isinstance(c.func.value, ast.Attribute) and c.func.value.attr == allvar)
-        e = sum(1 for c in ast.walk(lp) if isinstance(c, ast.Call) and call_name(c) == 'append' and
-                isinstance(c.func.value, ast.Attribute) and c.func.value.attr == eqlist)
-        nested = any(isinstance(x, (ast.If, ast.For, ast.While)) for st in lp.body for x in ast.walk(st))
-        if a or e:
-            order.append(src.split('.')[-1])
-            ok = a == 1 and e == 1 and not nested
-            aligned = aligned and ok
-            check.ob('C20.R2', '%s::lockstep(%s)' % (ge.key, src), ok, '%s:%d' % (ge.module.rel, lp.lineno),
-                     'one variable and one equation appended per item of %s' % src if ok else
-                     'variable list and equation list are not appended in lock-step for %s' % src,
-                     'any block: NEW_x must be computed from the equation of x')
-    check.ob('C20.R2', '%s::endogenous-first' % ge.key, order[:1] == ['Endogenous'], ge.where,
-             'variable vector order: %s' % order, 'results are unpacked from a prefix of the vector')
-    # first component of an endogenous item is the name, second the equation
-    for lp in loops[:1]:
-        tv = target_names(lp.target)
-        oka = any(isinstance(c, ast.Call) and call_name(c) == 'append' and isinstance(c.func.value, ast.Attribute)
-                  and c.func.value.attr == allvar and isinstance(c.args[0], ast.Name) and c.args[0].id == tv[0] for c in ast.walk(lp))
-        oke = any(isinstance(c, ast.Call) and call_name(c) == 'append' and isinstance(c.func.value, ast.Attribute)
-                  and c.func.value.attr == eqlist and isinstance(c.args[0], ast.Name) and c.args[0].id == tv[1] for c in ast.walk(lp))
-        check.ob('C20.R2', '%s::name-and-equation-roles' % ge.key, oka and oke, '%s:%d' % (ge.module.rel, lp.lineno),
-                 'names go to the vector, right-hand sides to the equation list', 'any block')
-    gf = gen_cls.methods['GenerateFunction']
-    check.saw(gf)
+    te = TermEval(ge.node)
+    te.run(ge.params())
+    finals = [env for env, a_ in te.finals] or [{}]
+    if len(finals) != 1 or [r_ for r_ in te.returns if r_[0] != ('opaque', 'None')]:
+        raise AnalysisError('C20.R2: %s does not have one straight path building the lists' % ge.qualname)
+    env = finals[0]
+
+    def segments(term):
+        """[(source attribute, element term with the index variable, index variable)] or None"""
+        t = canon_index(term)
+        segs = t[1] if t[0] == 'concat' else ((t,) if t != ('lit', ()) else ())
+        out = []
+        for sg in segs:
+            if sg[0] != 'map' or sg[3][0] != 'range' or sg[3][1] != ('int', 0) or sg[3][2][0] != 'len' or sg[3][2][1][0] != 'attr':
+                return None
+            out.append((sg[3][2][1][1], sg[2], sg[1]))
+        return out
+    av = segments(env.get('self.' + allvar, ('opaque', 'never assigned')))
+    eq = segments(env.get('self.' + eqlist, ('opaque', 'never assigned')))
+    if av is None or eq is None:
+        check.ob('C20.R2', '%s::lockstep(lists)' % ge_raw.key, False, ge_raw.where,
+                 'the variable vector / equation list are not built as one element per item of the parser lists: %s / %s' % (
+                     show(canon_index(env.get('self.' + allvar, ('opaque', '?'))))[:200], show(canon_index(env.get('self.' + eqlist, ('opaque', '?'))))[:200]),
+                 'any block: NEW_x must be computed from the equation of x')
+        av, eq = av or [], eq or []
+    srcs = []
+    for k_ in range(max(len(av), len(eq))):
+        sa = av[k_][0] if k_ < len(av) else None
+        se = eq[k_][0] if k_ < len(eq) else None
+        src = sa or se
+        srcs.append(src)
+        ok = sa == se
+        check.ob('C20.R2', '%s::lockstep(self.%s)' % (ge_raw.key, src), ok, ge_raw.where,
+                 'one variable and one equation appended per item of self.%s' % src if ok else
+                 'segment %d of the variable vector ranges over self.%s, of the equation list over self.%s: the lists are not index-aligned' % (k_, sa, se),
+                 'any block: NEW_x must be computed from the equation of x')
+    check.ob('C20.R2', '%s::endogenous-first' % ge_raw.key, srcs[:1] == ['Endogenous'], ge_raw.where,
+             'variable vector order: %s' % srcs, 'results are unpacked from a prefix of the vector')
+    roles_ok = bool(av) and bool(eq) and len(av) == len(eq)
+    why = []
+    for (sa, ta, va), (se, te_, ve) in zip(av, eq):
+        name_a = ('idx', ('idx', ('attr', sa), va), ('int', 0))
+        if ta != name_a:
+            roles_ok = False
+            why.append('the vector holds `%s` for self.%s' % (show(ta), sa))
+        want = ('idx', ('idx', ('attr', se), ve), ('int', 1 if se == 'Endogenous' else 0))
+        if te_ != want:
+            roles_ok = False
+            why.append('the equation list holds `%s` for self.%s, required `%s`' % (show(te_), se, show(want)))
+    check.ob('C20.R2', '%s::name-and-equation-roles' % ge_raw.key, roles_ok, ge_raw.where,
+             'names go to the vector; right-hand sides (endogenous) / the carried-over name (lagged, exogenous) to the equation list'
+             if roles_ok else '; '.join(why)[:500], 'any block')
+    # the reported variables: the vector without the lag carriers, same order
+    if 'NonLagged' in list_names or 'self.NonLagged' in env:
+        nl = segments(env.get('self.NonLagged', ('opaque', 'never assigned')))
+        want_nl = [sg for sg in av if sg[0] != 'Lagged']
+        ok_nl = nl is not None and len(nl) == len(want_nl) and all(
+            a_[0] == b_[0] and alpha_eq(('map', a_[2], a_[1], ('attr', a_[0])), ('map', b_[2], b_[1], ('attr', b_[0]))) for a_, b_ in zip(nl, want_nl))
+        check.ob('C20.R2', '%s::reported-variables' % ge_raw.key, ok_nl, ge_raw.where,
+                 'the reported variables are the names of self.Endogenous and self.Exogenous (the vector without the lag carriers)' if ok_nl else
+                 'the reported variables are `%s`, required the names of every endogenous and exogenous item and no lag carrier' %
+                 show(canon_index(env.get('self.NonLagged', ('opaque', '?'))))[:240],
+                 'a lag carrier not named LAG_*, or an ordinary variable named LAG_*')
+    gf_raw = gen_cls.methods['GenerateFunction']
+    check.saw(gf_raw)
+    gf = flatten(prog, gf_raw)
     uses = [n for n in ast.walk(gf.node) if isinstance(n, ast.Attribute) and n.attr in list_names | {allvar, eqlist}]
-    srcs = sorted({n.attr for n in uses})
-    ok = set(srcs) <= {allvar, eqlist} and allvar in srcs and eqlist in srcs
-    check.ob('C20.R2', '%s::iterator-uses-one-list' % gf.key, ok, gf.where,
-             'iterator unpack / body / return range over %s' % srcs, 'any block')
-    # loop bound of the body is len(AllVariables) and both lists are indexed by the same index
-    okb = False
-    for n in ast.walk(gf.node):
-        if isinstance(n, ast.For) and isinstance(n.iter, ast.Call) and call_name(n.iter) == 'range':
-            hi = n.iter.args[-1]
-            i = target_names(n.target)[0]
-            idx = [unparse(s.value) for s in ast.walk(n) if isinstance(s, ast.Subscript) and unparse(s.slice) == i]
-            okb = unparse(hi) == 'len(self.%s)' % allvar and any('EquationList' in x for x in idx) and len(idx) >= 2
-    check.ob('C20.R2', '%s::body-indexed-consistently' % gf.key, okb, gf.where,
+    srcs_ = sorted({n.attr for n in uses})
+    tf = TermEval(gf.node)
+    tf.run(gf.params())
+    texts = [canon_index(t_) for t_, a_, l_ in tf.returns]
+    ok_one, okb, whyb = bool(texts), bool(texts), ''
+    for t_ in texts:
+        parts = t_[1] if t_[0] == 'cat' else (t_,)
+        joins = [p_ for p_ in parts if p_[0] == 'join']
+        reps = [p_ for p_ in parts if p_[0] == 'rep']
+        # unpack line joins the vector itself, the return line joins the decorated vector
+        plain = [j for j in joins if j[2] == ('attr', allvar)]
+        deco = [j for j in joins if j[2][0] == 'map' and j[2][3] == ('range', ('int', 0), ('len', ('attr', allvar)))
+                and j[2][2][0] == 'cat' and len(j[2][2][1]) == 2 and j[2][2][1][0][0] == 'str' and j[2][2][1][1] == ('idx', ('attr', allvar), j[2][1])]
+        if not (len(joins) == 2 and len(plain) == 1 and len(deco) == 1 and set(srcs_) <= {allvar, eqlist}):
+            ok_one = False
+        prefix = deco[0][2][2][1][0][1] if deco else None
+        if len(reps) != 1:
+            okb, whyb = False, 'the text has %d repeated parts' % len(reps)
+            continue
+        rp = reps[0]
+        rparts = rep_parts(rp)
+        dyn = [p_ for p_ in rparts if p_[0] != 'str']
+        i_ = rp[1]
+        want = [('idx', ('attr', allvar), i_), ('idx', ('attr', eqlist), i_)]
+        rng_ok = rp[3] in (('range', ('int', 0), ('len', ('attr', allvar))), ('range', ('int', 0), ('len', ('attr', eqlist))))
+        before = None
+        for k_, p_ in enumerate(rparts):
+            if p_ == want[0] and k_ > 0 and rparts[k_ - 1][0] == 'str':
+                before = rparts[k_ - 1][1]
+        between = [p_ for p_ in rparts[[k_ for k_, p_ in enumerate(rparts) if p_ == want[0]][0] + 1:] if p_[0] == 'str'][:1] if want[0] in rparts else []
+        if dyn != want or not rng_ok or prefix is None or before is None or not before.endswith(prefix) or not (between and '=' in between[0][1]):
+            okb = False
+            whyb = 'one line of the body is `%s` for the index in `%s`' % (show(('cat', rparts))[:200], show(rp[3]))
+    check.ob('C20.R2', '%s::iterator-uses-one-list' % gf_raw.key, ok_one, gf_raw.where,
+             'iterator unpack / body / return range over %s' % srcs_, 'any block')
+    check.ob('C20.R2', '%s::body-indexed-consistently' % gf_raw.key, okb, gf_raw.where,
              'NEW_<var>[i] = EquationList[i] for i in range(len(AllVariables))' if okb else
-             'iterator body does not pair decorated[i] with EquationList[i] over the whole vector', 'any block')
+             'iterator body does not pair decorated[i] with EquationList[i] over the whole vector (%s)' % whyb, 'any block')
     go = gen_cls.methods.get('GenerateOrigVector')
     if go is not None:
         check.saw(go)
